@@ -35,6 +35,22 @@ def _new_grid(dim):
     return g
 
 
+def _as_form(lst, form):
+    """The same grids handed over as different kinds of iterable (6 forms)."""
+    form %= 6
+    if form == 0:
+        return list(lst)
+    if form == 1:
+        return tuple(lst)
+    if form == 2:
+        return (g for g in lst)              # generator expression (one shot)
+    if form == 3:
+        return iter(list(lst))               # list iterator (one shot)
+    if form == 4:
+        return map(lambda g: g, lst)         # map object (one shot)
+    return {id(g): g for g in lst}.values()  # dict view
+
+
 def _new_mortar(dim, codim=1):
     return pp.MortarGrid(dim, {MortarSides.LEFT_SIDE: _template(dim)}, codim=codim)
 
@@ -105,6 +121,7 @@ def _obs(x):
                                   + f" {p[1]} {_resl(p[2])}"),
         _l(x["neigh"], lambda p: f"NB {_g(p[0])} {'true' if p[1] else 'false'} "
                                  f"{'true' if p[2] else 'false'} {_resl(p[3])}"),
+        _l(x["argsort"], lambda p: f"AS {_gl(p[0])} {_resl(p[1])}"),
     ]
     return "(mkobs " + " ".join(parts) + ")"
 
@@ -227,12 +244,14 @@ class C24(Prop):
     rule = ("random histories (<=40 ops quick, <=80 thorough) on a real "
             "pp.MixedDimensionalGrid over a pool of <=12 tiny subdomain grids (dims 0-3) and "
             "<=12 mortar grids (dims 0-2, codim attribute 0-2) created in pool order, added in "
-            "random order, removed grids re-added; ~80% well-formed calls incl. self-coupled "
+            "random order, removed grids re-added; iterable arguments (add_subdomains, "
+            "argsort_grids) rotate through list, tuple, generator, iterator, map object, dict "
+            "view and bare grid; ~80% well-formed calls incl. self-coupled "
             "interfaces, the rest rejected/ill-formed calls (present grid added again, "
             "duplicates in one call, existing interface, co-dimension 3, absent neighbours, "
             "second interface on a pair, absent removal, replacement by present / "
             "other-dimensional grid, multi-entry and empty maps); queries after every call: "
-            "subdomains/interfaces (rotating dim and codim filters), boundaries, pair maps both "
+            "subdomains/interfaces (rotating dim and codim filters), argsort_grids, boundaries, pair maps both "
             "ways, subdomain_to_interfaces, neighboring_subdomains (rotating flags incl. both), "
             "boundary-grid map, data-dictionary identities; non-trivial = at least one interface "
             "added and one removal or replacement carried out; distinct by (case, output)")
@@ -425,14 +444,17 @@ class C24(Prop):
                 try:
                     if k == "add":
                         arg = [sd_pool[g[1]] for g in o[1]]
-                        form = len(steps) % 3     # list / bare grid / tuple
+                        form = (len(steps) + len(arg)) % 7
                         try:
-                            if form == 1 and len(arg) == 1:
-                                mdg.add_subdomains(arg[0])
-                            elif form == 2:
-                                mdg.add_subdomains(tuple(arg))
-                            else:
+                            if form == 6 and len(arg) == 1:
+                                mdg.add_subdomains(arg[0])      # a bare grid
+                            elif form in (0, 6):
                                 mdg.add_subdomains(arg)
+                            else:
+                                # tuple / generator / iterator / map / dict view; a dict
+                                # view cannot hold one grid twice
+                                f = form if len(set(map(id, arg))) == len(arg) else form % 5
+                                mdg.add_subdomains(_as_form(arg, f))
                         finally:
                             arg.clear()           # aliasing probe
                     elif k == "intf":
@@ -518,6 +540,15 @@ class C24(Prop):
                     x["neigh"].append([sd_of[id(s_)], hi, lo, attempt(
                         lambda: mdg.neighboring_subdomains(s_, only_higher=hi, only_lower=lo),
                         sds)])
+                # argsort_grids called directly with different kinds of iterable: the
+                # subdomains in reverse dictionary order, the interfaces in dictionary order
+                x["argsort"] = []
+                for n_, probe in enumerate((present[::-1], list(mdg._interface_data))):
+                    conv = sds if n_ == 0 else mgs
+                    form = len(steps) + 2 * n_
+                    x["argsort"].append([conv(probe), attempt(
+                        lambda: [probe[i] for i in mdg.argsort_grids(_as_form(probe, form))],
+                        conv)])
                 steps.append(x)
             return {"steps": steps}
         finally:
@@ -676,6 +707,10 @@ class C24(Prop):
             want = [g for g in I if (d is None or g[0] == d) and cods[g[1]] == c]
             if r[0] != "ok" or tl(r[1]) != want:
                 return f"interfaces(dim={d}, codim={c}) = {r}, expected {want}"
+        for probe, r in x["argsort"]:
+            want = sorted(tl(probe), key=_key)
+            if r[0] != "ok" or tl(r[1]) != want:
+                return f"argsort_grids({probe}) selects {r}, expected {want}"
         for s, hi, lo, r in x["neigh"]:
             s = tuple(s)
             if hi and lo:
